@@ -18,6 +18,7 @@ import (
 	"os"
 	"os/exec"
 	"path/filepath"
+	"runtime"
 	"sort"
 	"strings"
 	"sync"
@@ -227,6 +228,10 @@ type peerRec struct {
 
 // ---------- running one scenario ----------
 func runScenario(sc *Scenario) []Sx {
+	var m0 runtime.MemStats
+	if sc.MeasureMem {
+		runtime.ReadMemStats(&m0)
+	}
 	lg := &obsLog{start: time.Now()}
 	// a port nobody listens on until ListenFrom
 	l0, err := net.Listen("tcp", "127.0.0.1:0")
@@ -408,6 +413,11 @@ func runScenario(sc *Scenario) []Sx {
 	}
 	if invalid != "" {
 		ev = append(ev, L(Sym("inv"), Sym(invalid)))
+	}
+	if sc.MeasureMem {
+		var m1 runtime.MemStats
+		runtime.ReadMemStats(&m1)
+		ev = append(ev, L(Sym("mem"), int(m1.TotalAlloc-m0.TotalAlloc)))
 	}
 	return ev
 }
@@ -606,6 +616,7 @@ func parseScenario(line string) *Scenario {
 		return nil
 	}
 	sc := &Scenario{ID: n.Kids[1].Atom}
+	sc.MeasureMem = strings.Contains(sc.ID, "-mem-")
 	cfg := n.Kids[2].Kids
 	sc.Entry = cfg[1].Atom
 	sc.UseCfg = cfg[2].Bool()
@@ -703,7 +714,16 @@ func runBatch(scs []*Scenario, par int) {
 	results := make([]res, len(scs))
 	sem := make(chan struct{}, par)
 	var wg sync.WaitGroup
+	for i := range scs { // memory-measuring scenarios run alone
+		if scs[i].MeasureMem {
+			ev := runScenario(scs[i])
+			results[i].line = sxString(scs[i].caseSx(ev))
+		}
+	}
 	for i := range scs {
+		if scs[i].MeasureMem {
+			continue
+		}
 		wg.Add(1)
 		sem <- struct{}{}
 		go func(i int) {
